@@ -7,9 +7,48 @@ mod util;
 
 use std::io::{BufRead, Write};
 
+// ---- process-wide observers (C14): largest single allocation request, library panics ----
+pub struct Counting;
+pub static MAX_ALLOC: std::sync::atomic::AtomicUsize = std::sync::atomic::AtomicUsize::new(0);
+pub static LIB_PANICS: std::sync::atomic::AtomicUsize = std::sync::atomic::AtomicUsize::new(0);
+pub static LAST_PANIC: std::sync::Mutex<String> = std::sync::Mutex::new(String::new());
+unsafe impl std::alloc::GlobalAlloc for Counting {
+    unsafe fn alloc(&self, l: std::alloc::Layout) -> *mut u8 {
+        MAX_ALLOC.fetch_max(l.size(), std::sync::atomic::Ordering::Relaxed);
+        std::alloc::System.alloc(l)
+    }
+    unsafe fn alloc_zeroed(&self, l: std::alloc::Layout) -> *mut u8 {
+        MAX_ALLOC.fetch_max(l.size(), std::sync::atomic::Ordering::Relaxed);
+        if l.size() > (1usize << 34) {
+            // an allocation request of more than 16 GiB on behalf of a client: refuse it the way an
+            // exhausted machine would (the standard library then aborts the process)
+            return std::ptr::null_mut();
+        }
+        std::alloc::System.alloc_zeroed(l)
+    }
+    unsafe fn dealloc(&self, p: *mut u8, l: std::alloc::Layout) {
+        std::alloc::System.dealloc(p, l)
+    }
+    unsafe fn realloc(&self, p: *mut u8, l: std::alloc::Layout, n: usize) -> *mut u8 {
+        MAX_ALLOC.fetch_max(n, std::sync::atomic::Ordering::Relaxed);
+        std::alloc::System.realloc(p, l, n)
+    }
+}
+#[global_allocator]
+static GLOBAL: Counting = Counting;
+
 fn main() {
-    // silence the default panic message: panics are observations here
-    std::panic::set_hook(Box::new(|_| {}));
+    // silence the default panic message: panics are observations here. A panic whose message is
+    // not the handler's own deliberate one counts as a panic inside the library.
+    std::panic::set_hook(Box::new(|info| {
+        let msg = info.to_string();
+        if !msg.contains("handler panics while holding the request") {
+            LIB_PANICS.fetch_add(1, std::sync::atomic::Ordering::SeqCst);
+            if let Ok(mut g) = LAST_PANIC.lock() {
+                *g = msg.replace('\n', " ").replace(' ', "_");
+            }
+        }
+    }));
     raise_fd_limit();
     let mut servers = cv::Servers::new();
     let stdin = std::io::stdin();
